@@ -123,6 +123,12 @@ impl IoLoopHandle {
         self.send(IoLoopMessage::Send(buf))
     }
 
+    // A method that is followed by content (a publish); see IoLoopMessage::SendContent.
+    pub(super) fn send_content_method<M: IntoAmqpClass>(&mut self, method: M) -> Result<()> {
+        let buf = self.make_buf(method);
+        self.send(IoLoopMessage::SendContent(buf, true))
+    }
+
     pub(super) fn send_content_header(
         &mut self,
         class_id: u16,
@@ -133,14 +139,14 @@ impl IoLoopHandle {
         self.buf
             .push_content_header(self.channel_id, class_id, len, properties);
         let buf = self.buf.drain_into_new_buf();
-        self.send(IoLoopMessage::Send(buf))
+        self.send(IoLoopMessage::SendContent(buf, len > 0))
     }
 
-    pub(super) fn send_content_body(&mut self, content: &[u8]) -> Result<()> {
+    pub(super) fn send_content_body(&mut self, content: &[u8], more_follows: bool) -> Result<()> {
         debug_assert!(self.buf.is_empty());
         self.buf.push_content_body(self.channel_id, content);
         let buf = self.buf.drain_into_new_buf();
-        self.send(IoLoopMessage::Send(buf))
+        self.send(IoLoopMessage::SendContent(buf, more_follows))
     }
 
     fn send(&mut self, message: IoLoopMessage) -> Result<()> {
